@@ -195,7 +195,9 @@ def ensure_driver():
 def ensure_harness(race=False):
     """Build fsdbh from /repo's working tree with -tags verif."""
     with Lock("harness"):
-        shutil.copy(os.path.join(REPO, "go.sum"), os.path.join(HARNESS, "go.sum"))
+        rc, out = sh(["sh", os.path.join(HARNESS, "mkmod.sh")], env=dict(os.environ, VERIF_REPO=REPO), timeout=60)
+        if rc != 0:
+            raise CheckBroken("harness/mkmod.sh failed: " + out)
         out_bin = FSDBH + ("-race" if race else "")
         cmd = ["go", "build", "-tags", "verif"] + (["-race"] if race else []) + ["-o", out_bin, "."]
         rc, out = sh(cmd, cwd=HARNESS, env=goenv(), timeout=900)
